@@ -74,11 +74,11 @@ func simLeafCert(id int) []byte {
 
 type simHTTPSub struct {
 	unexplainedWait bool // the handler neither answered nor visibly parked its submission within the grace period
-	Entry    *simEntry
-	rec      *httptest.ResponseRecorder
-	done     chan struct{}
-	stop     context.CancelFunc
-	panicked string // value the handler panicked with (read after done is closed)
+	Entry           *simEntry
+	rec             *httptest.ResponseRecorder
+	done            chan struct{}
+	stop            context.CancelFunc
+	panicked        string // value the handler panicked with (read after done is closed)
 }
 
 // simHTTPChain is a submission other than the plain final certificate: the chain as posted, and the entry the log has
